@@ -98,6 +98,8 @@ def canonical(f, v):
     if f.name == "inquiry.standard":
         # any legal ADDITIONAL LENGTH; the canonical response is what a 96-byte allocation holds afterwards (see pad())
         pass
+    if getattr(f, "SHORT_REVISIONS", None) and f.name != "inquiry.standard":
+        v.pop("_total", None)  # the builder writes the page at the full length of the current revision
     if f.name == "readelementstatus":
         for p in v["element_status_pages"]:
             p["_tail"] = 4
